@@ -15,7 +15,7 @@ func init() { register("C14", "model_checking", checkC14) }
 
 // entities whose names are choice points, with their neutral names
 var c14Entities = []struct{ id, neutral, class string }{
-	{"pkgA", "alib", "pkg"}, {"pkgB", "blib", "pkg"},
+	{"pkgA", "alib", "pkg"}, {"pkgB", "blib", "pkg"}, {"pkgC", "clib", "pkg"},
 	{"tA", "Alpha", "libtype"}, {"tB", "Beta", "libtype"},
 	{"tC", "Gamma", "type"}, {"tS", "Agg", "type"}, {"tV", "Val", "type"}, {"tR", "Res", "type"}, {"tP0", "ArgT", "type"}, {"tP1", "ArgU", "type"},
 	{"fA", "NewAlpha", "libfunc"}, {"fB", "NewBeta", "libfunc"}, {"fC", "newGamma", "func"}, {"fR", "newRes", "func"},
@@ -64,7 +64,16 @@ func c14Program(n map[string]string, declKind int) (*ir.Program, bool) {
 		inj1.Params[0].Name, inj1.Params[1].Name = "-", "-"
 		inj2.Params[0].Name = "-"
 	}
-	prog := &ir.Program{Root: p, Injectors: []*ir.Injector{inj1, inj2}, Hist: 2, UserImportPrefix: "u_"}
+	// a third package that only a declaration copied from the injector file refers to, under the user's alias
+	lc := &ir.Pkg{Name: n["pkgC"], Rel: "c/z"}
+	inj1.After = "var copiedOnly = u_" + n["pkgC"] + ".Thing + 1\n\nfunc copiedFn() int { return u_" + n["pkgC"] + ".Twice(copiedOnly) }"
+	prog := &ir.Program{Root: p, Injectors: []*ir.Injector{inj1, inj2}, Hist: 2, UserImportPrefix: "u_",
+		InjectorImports: []*ir.Pkg{lc},
+		ExtraFiles:      map[string]string{"c/z/z.go": "package " + n["pkgC"] + "\n\nvar Thing = 1\n\nfunc Twice(x int) int { return 2 * x }\n"}}
+	if n["pkgC"] == n["pkgA"] || n["pkgC"] == n["pkgB"] {
+		// the renderer numbers the aliases of same-named packages; keep the copied text in step with it
+		return nil, false
+	}
 	if d := n["decl"]; d != "" {
 		switch declKind {
 		case 0:
@@ -84,6 +93,8 @@ func c14Program(n map[string]string, declKind int) (*ir.Program, bool) {
 			rootNames[n[k]]++
 		}
 	}
+	rootNames["copiedOnly"]++
+	rootNames["copiedFn"]++
 	rootNames["Init"]++
 	rootNames["Init2"]++
 	rootNames["VerifDrive"]++
